@@ -569,9 +569,11 @@ class Run:
             rounds += 1
             ps, m.pending_spawns = m.pending_spawns, []
             newres = []
-            for (th, parent_alt, name, args, fv) in ps:
+            for (th, parent_alt, name, args, fv, spawn_guard) in ps:
                 spawned_map.setdefault(parent_alt.thread.tid, set()).add(th.tid)
-                alt = Alt(th, parent_alt.guard)
+                alt = Alt(th, spawn_guard)
+                if os.environ.get("GOBMC_INVARIANT"):
+                    print("  spawn", th.name, "step", self.m.step, "guard", "True" if parent_alt.guard is True else "sym", flush=True)
                 self.start_thread(alt, name, args, fv)
                 if self.spawn_yield:
                     # the start of a goroutine is a scheduling point of its own (it may be delayed arbitrarily)
@@ -768,6 +770,20 @@ class Run:
                     break
             if r_ == "retry":
                 r_ = self.step(k, retry=True)
+            if os.environ.get("GOBMC_INVARIANT"):
+                # debug: a goroutine that was started and has not finished is at some location
+                for t in m.threads[1:]:
+                    lost = AND(t.spawn_guard, NOT(t.done), NOT(OR(*[a.guard for a in t.alts])))
+                    if lost is not False:
+                        ss = z3.Solver(); ss.add(*m.constraints)
+                        if ss.check(B(lost)) == z3.sat:
+                            if not getattr(self, "_lost_shown", False):
+                                self._lost_shown = True
+                                mdl = ss.model()
+                                for e in self.schedule_of(mdl):
+                                    if not e.get("idle"):
+                                        print("     ", e["step"], e["thread"], e["op"][:90], flush=True)
+                            print("  !! thread %s lost an alternative at step %d" % (t.name, k), "alts:", [(self.describe(a, a.opt)[-40:], a.status) for a in t.alts], "done:", t.done is not False, flush=True)
             if not r_:
                 self.quiescent_at = k
                 break
